@@ -112,10 +112,10 @@ def discRead (src dst : List Nat × Nat) (ctr : Nat) : Disp.Dg :=
 theorem c05_still_serves (w : Disp.W) (p : Nat) (src dst : List Nat × Nat) (ctr : Nat) (rf : Disp.RF) (lf : Disp.LF)
     (hs : Disp.srcF w p (discRead src dst ctr) = some rf) (hd : Disp.dstF w (discRead src dst ctr) = some lf)
     (hnm : lf.nm = true) :
-    (Disp.processCmd w p (discRead src dst ctr)).2 = [.reply ctr 901 dst src] := by
+    (Disp.processCmd w p (discRead src dst ctr)).2 = [(p, .reply ctr 901 dst src)] := by
   unfold Disp.processCmd
   simp only [hs, hd]
-  simp [discRead, Disp.panics, Disp.responses, Disp.handle, Disp.wantsRead, hnm]
+  simp [discRead, Disp.panics, Disp.responses, Disp.handle, Disp.handleNM, Disp.wantsRead, Disp.applies, Disp.tag, hnm]
 
 /-- … and this is *not* a corollary of panic freedom: a peer whose source feature is not known any more is
     answered nothing at all, whatever it sends (the wedge). -/
